@@ -281,6 +281,16 @@ theorem c20_fault_isolated {S : Sys} {s : State} (h : Reachable S s) (q : Nat)
   have := (mutex_reachable h q).2 hl
   cases hpc : (s.res q).pc <;> simp [hpc, Pc.isDone, Pc.inLocked] at hd this
 
+/-- **No deadlock on the shared mutex.**  In every reachable state, if some thread waits for the
+mutex then some thread can act: the waiter itself if the mutex is free, otherwise the owner
+(which, by `c20_fault_isolated`, has not ended and, by `c20_lock_owner_progress`, releases the
+mutex within four actions). -/
+theorem c20_no_deadlock {S : Sys} {s : State} (h : Reachable S s) (r : Nat)
+    (hw : (s.res r).pc = .lockWait) : ∃ q, (rstep S q s).isSome = true := by
+  cases hl : s.lock with
+  | none => exact ⟨r, by simp [rstep, hw, hl]⟩
+  | some q => exact ⟨q, by rw [(c20_lock_owner_progress h hl).1]; rfl⟩
+
 /-! ## Non-vacuity -/
 
 /-- The hypotheses of `c20_paused_no_cycle` are satisfiable: send `Pause`, let the thread reach
